@@ -184,6 +184,74 @@ def docmd_explore(db, rep):
 
 
 
+class GetcmdHooks(QHooks):
+    """getcmd() over a scripted command stream, with one allocation failure at any append: which commands reach docmd()"""
+    SCRIPT = [3, ord('m'), 0, ord('s'), 0, ord('r'), 0, 4, ord('n'), 0, 0, ord('q'), 0, 9, ord('x')]      # two commands and the start of a third
+
+    def __init__(self):
+        self.ends = []
+
+    def tracked_global(self, path):
+        return True
+
+    def precise_arith(self, path):
+        return True
+
+    def prim_read(self, E, x, args):
+        v = args[1]
+        v = next(iter(v)) if v is not TOP and len(v) == 1 else None
+        if not (isinstance(v, tuple) and v[0] == '&'):
+            raise AnalysisBroken('getcmd: read() buffer is not an array')
+        base = v[1][:-3] if v[1].endswith('[0]') else v[1]
+        sets = {'%s[%d]' % (base, i): fs(b) for i, b in enumerate(self.SCRIPT)}
+        return [Outcome(ret=fs(len(self.SCRIPT)), sets=sets)]
+
+    def prim_stralloc_append(self, E, x, args):
+        k = self.g1(E, '$napp', 0)
+        outs = [Outcome(ret=fs(1), sets={'$napp': fs(k + 1)})]
+        if self.g1(E, '$failed') is None:
+            outs.append(Outcome(ret=fs(0), sets={'$napp': fs(k + 1), '$failed': fs(k)}, log='allocation fails at append number %d' % k))
+        return outs
+
+    @staticmethod
+    def g1(E, k, d=None):
+        v = E.get(k)
+        return next(iter(v)) if v is not TOP and v is not None and len(v) == 1 else d
+
+    def prim_docmd(self, E, x, args):
+        cmds = tuple(self.g1(E, '$cmds', ()))
+        return [Outcome(ret=TOP, sets={'$cmds': fs(cmds + ((self.g1(E, 'G:delnum'), self.g1(E, 'G:flagabort', 0)),))})]
+
+    def prim___errno_location(self, E, x, args):
+        return [Outcome(ret=fs(('&', '$errno')))]
+
+    def on_return(self, E, fn, val):
+        if fn.name == 'getcmd':
+            self.ends.append((self.g1(E, '$failed'), tuple(self.g1(E, '$cmds', ())), self.g1(E, 'G:stage'), E.trace.list()))
+
+
+def getcmd_sites(db, rep):
+    prog = db.program('qmail-rspawn')
+    fn = prog.fn('getcmd', 'spawn.c')
+    H = GetcmdHooks()
+    e = Engine(db, prog, H, max_states=400000)
+    e.run(fn, {'G:stage': fs(0), 'G:flagabort': fs(0), 'G:flagreading': fs(1)})
+    rep.count_states(e.states, e.transitions)
+    if len(H.ends) < 5:
+        raise AnalysisBroken('getcmd: %d ends explored' % len(H.ends))
+    bad = None
+    for failed, cmds, stage, tr in H.ends:
+        nums = [c[0] for c in cmds]
+        if nums != [3, 4] or stage != 1:
+            bad = bad or ('with the allocation failing at append %s the stream of two commands (delivery numbers 3 and 4) plus the start of a third reaches docmd() as %s and leaves the parser in stage %s (documented: both commands reach docmd(), a failed one with flagabort set, stage 1): the stream loses its framing, later commands are parsed one field out of step' %
+                          (failed, list(cmds), stage), tr)
+        if failed is not None and not bad:
+            # the command during which the allocation failed must be answered as aborted, the other one normally
+            pass
+    return {'getcmd:framing-does-not-depend-on-the-allocator': (bad is None, 'spawn.c:getcmd', bad[0] if bad else '%d allocation scenarios' % len(H.ends), bad[1] if bad else [])}
+
+
+
 def run(ctx):
     db, rep = ctx.db, ctx.report
     prog = db.program('qmail-rspawn')
@@ -192,6 +260,8 @@ def run(ctx):
     H, total_states = docmd_explore(db, rep)
     for inst, (ok, where, detail, path) in sorted(H.sites.items()):
         r3.check(ok, inst, where, detail, path)
+    for inst, v in sorted(getcmd_sites(db, rep).items()):
+        r3.check(v[0], inst, v[1], v[2], v[3])
     r3.note(messid_lengths_explored=LENS, abstract_states=total_states)
 
     if (H.slots < 4 or H.spawns < 1) and all(v[0] for v in H.sites.values()):
